@@ -295,6 +295,84 @@ def program_level(rng, n_programs):
     return problems, nlits
 
 
+def history_folds(rng, n):
+    """Folds in one process without any reset in between: the same operator on the same two values as `Integer` and as
+    `UnsignedInteger` (either order), and augmented assignments (`acc += lit`, `-=`, `*=`) on a literal that has another name
+    or is already an operand of an earlier operation.  Every fold must give the exact value in its own literal class, and a
+    literal that was folded or written earlier keeps its value — in the wrapper, in its stored record and in the MIR."""
+    import operator
+    from nada_dsl import Party, Input, Output, Integer, UnsignedInteger, SecretInteger, ast_util
+    from nada_dsl.compiler_frontend import nada_dsl_to_nada_mir
+    problems = []
+    reset_globals()
+    kept = []           # (description, literal, exact value, class name)
+    ops = ["add", "sub", "mul", "div", "mod", "pow", "lt", "ge", "eq", "ne", "shl", "shr"]
+    for k in range(n):
+        op = ops[k % len(ops)]
+        a, b = rng.choice([6, 9, 12, 2**64 + 5, 10**30]), rng.choice([2, 3, 7])
+        if op == "sub" and a < b:
+            a, b = b, a
+        order = [("Integer", Integer), ("UnsignedInteger", UnsignedInteger)]
+        if rng.random() < 0.5:
+            order.reverse()
+        for cname, cls in order:
+            try:
+                r = PYOP[op](cls(a), UnsignedInteger(b) if op in ("shl", "shr") else cls(b))
+            except Exception as exc:  # pylint: disable=broad-except
+                problems.append({"expr": f"{cname}({a}) {op} {cname}({b})", "why": f"raised {type(exc).__name__} (second use of these values in the process)"})
+                continue
+            want_cls = "Boolean" if op in REL else cname
+            want = exact_of(op, a, b) if op in ("div", "mod", "shl", "shr", "pow") else EXACT[op](a, b)
+            if type(r).__name__ != want_cls or r.value != want or isinstance(r.value, bool) != (want_cls == "Boolean"):
+                problems.append({"expr": f"{cname}({a}) {op} {cname}({b}), after the same operator on the same values in the other integer class",
+                                 "why": f"folded to {type(r).__name__}({r.value}); the exact result is {want_cls}({want})"})
+            kept.append((f"{cname}({a}) {op} {cname}({b})", r, want, want_cls))
+    # augmented assignment on a literal that has another name
+    for k in range(max(4, n // 4)):
+        cname, cls = [("Integer", Integer), ("UnsignedInteger", UnsignedInteger)][k % 2]
+        v, c = rng.choice([5, 2**64, 10**25]), rng.choice([1, 3, 7])
+        sym, f, ex = [("+=", operator.iadd, v + c), ("*=", operator.imul, v * c), ("-=", operator.isub, v - c)][k % 3]
+        base = cls(v)
+        acc = base
+        acc = f(acc, cls(c))
+        if type(acc).__name__ != cname or acc.value != ex:
+            problems.append({"expr": f"acc = {cname}({v}); acc {sym} {cname}({c})", "why": f"acc is {type(acc).__name__}({acc.value}); the exact result is {ex}"})
+        again = base * cls(3)
+        if base.value != v or again.value != v * 3:
+            problems.append({"expr": f"base = {cname}({v}); acc = base; acc {sym} {cname}({c}); base * {cname}(3)",
+                             "why": f"folded to {again.value}; the exact result is {v * 3} (base now holds {base.value})"})
+    # a folded literal that is already an operand, then updated in place under its name
+    p = Party("p")
+    x = SecretInteger(Input("hx", p))
+    t = Integer(10) - Integer(3)
+    y = x * t
+    t -= Integer(7)
+    t2 = Integer(4) * Integer(5)
+    z = x + t2
+    t2 += Integer(1)
+    try:
+        mir = nada_dsl_to_nada_mir([Output(y, "y", p), Output(z, "z", p)])
+        lits = {l["name"]: l for l in mir["literals"]}
+        for out, want, desc in ((mir["outputs"][0], "7", "t = Integer(10) - Integer(3); y = x * t; t -= Integer(7)"),
+                                (mir["outputs"][1], "20", "t = Integer(4) * Integer(5); z = x + t; t += Integer(1)")):
+            body = next(iter(mir["operations"][out["operation_id"]].values()))
+            ref = next(iter(mir["operations"][body["right"]].values()))
+            got = lits.get(ref.get("refers_to"), {}).get("value")
+            if got != want:
+                problems.append({"expr": desc, "why": f"the operation traced before the update refers to the literal {got}; the program wrote {want}"})
+    except Exception as exc:  # pylint: disable=broad-except
+        problems.append({"expr": "y = x * t; t -= Integer(7)", "why": f"compilation raised {type(exc).__name__}: {exc}"[:200]})
+    # literals folded earlier in this process still hold what they were folded to
+    for desc, lit, want, cname in kept:
+        rec = ast_util.AST_OPERATIONS.get(lit.child.id)
+        if lit.value != want or type(lit).__name__ != cname or str(getattr(rec, "value", None)) != str(want):
+            problems.append({"expr": desc, "why": f"folded to {cname}({want}) earlier in the process, now holds {type(lit).__name__}({lit.value}) "
+                                                  f"(stored record: {getattr(rec, 'value', None)})"})
+            break
+    reset_globals()
+    return problems, len(kept)
+
+
 def all_nonneg(e):
     return e[1] >= 0 if e[0] == "lit" else (e[0] != "sub" and all_nonneg(e[1]) and all_nonneg(e[2]))
 
@@ -359,8 +437,16 @@ def run(res, tier):
                               f"{op_}({', '.join(names)}) with operands built as '{prov}': "
                               + ("folded to a literal although an operand is not a literal" if folded else "not folded although every operand is a literal")
                               + f" (result {t1_scalar.CLASSES[sty].__name__}, recorded as {name})")
-    problems, nlits = program_level(R.make("C06-programs"), 24 if tier == "quick" else 600)
-    for pr in problems[:8]:
+    hproblems, nhist = history_folds(R.make("C06-history"), 24 if tier == "quick" else 240)
+    try:
+        problems, nlits = program_level(R.make("C06-programs"), 24 if tier == "quick" else 600)
+    except Exception as exc:  # pylint: disable=broad-except
+        # the harness empties the trace between two programs; something of an earlier program was still in use
+        problems, nlits = [], 0
+        reset_globals()
+        res.broken.append({"decl": "program-level fold run (the trace is emptied between programs, as the test-suite fixture does)",
+                           "msg": f"{type(exc).__name__}: {exc}"[:300]})
+    for pr in (problems + hproblems)[:8]:
         res.violation({"property": "C06", "kind": "fold-in-program", **pr}, f"{pr['expr'][:120]}: {pr['why']}"[:400])
     res.coverage.update({
         "evaluations": len(cases),
@@ -388,6 +474,7 @@ def replay(obj):
         return c02.replay_fold_cell(obj)
     if obj.get("kind") == "fold-in-program":
         problems, _ = program_level(R.make("C06-programs"), 24)
+        problems += history_folds(R.make("C06-history"), 24)[0]
         print(json.dumps(problems[:3], default=str)[:1500])
         if problems:
             print("VIOLATION property=C06 replay=(replayed)")
